@@ -13,6 +13,49 @@ import p_c04
 KINDS = ["printf", "winch", "refresh"]
 
 
+class Buffer(Report):
+    """collects candidate violations (confirmed by two more runs before they are reported)"""
+    def __init__(self, rep):
+        Report.__init__(self, rep.pid, rep.tier, rep.seed)
+        self.buffered = []
+
+    def violation(self, what, replay):
+        self.buffered.append((what, replay))
+
+    def merge_into(self, rep):
+        rep.states += self.states
+        rep.transitions += self.transitions
+        rep.traces += self.traces
+        rep.evaluations += self.evaluations
+        rep.nontrivial |= self.nontrivial
+        rep.models += self.models
+        rep.notes += self.notes
+        rep.extra.update(self.extra)
+        if not rep.samples:
+            rep.samples = self.samples
+        for k, v in self.known_hit.items():
+            rep.known_hit.setdefault(k, {"what": v["what"], "count": 0})["count"] += v["count"]
+
+
+def confirmed(rep, buf, rerun, wd_name):
+    """report the buffered violations that show again in each of two more runs of the same scenario"""
+    cands = buf.buffered[:40]
+    if not cands:
+        return
+    hits = {}
+    for k in range(2):
+        b2 = Buffer(rep)
+        rerun(b2, [rp for _, rp in cands], workdir("%s-confirm%d" % (wd_name, k)))
+        for _, rp2 in b2.buffered:
+            cid = rp2["case"]["id"]
+            hits[cid] = hits.get(cid, 0) + 1
+    for what, rp in cands:
+        if hits.get(rp["case"]["id"], 0) == 2:
+            rep.violation(what, rp)
+        else:
+            rep.notes.append("not confirmed by two more runs (%d/2), not reported: %s" % (hits.get(rp["case"]["id"], 0), what[:200]))
+
+
 def parse_sched(out):
     by = {}
     for l in out.splitlines():
@@ -151,18 +194,24 @@ def screen_lines(cs, evs):
     first query of main seen after that moment may belong to a redisplay that overlapped the auxiliary one)"""
     out = [({"ev": "reset", "w": cs["w"], "h": cs["h"]}, {"ev": "reset"})]
     since = 2
+    same, first = True, True
     for e in evs:
         if e["ev"] == "out":
             out.append(({"ev": "out", "tok": e["tok"], "cells": e.get("cells") or [], "n": e.get("n", 0), "a": e.get("a", 0), "b": e.get("b", 0)}, e))
         elif e["ev"] in ("auxstart", "auxdone"):
             since = 0
+            if e.get("what") == "printf":
+                same = False      # the prompt is printed again below the message
+        elif e["ev"] == "session":
+            first = True
         elif e["ev"] == "settle" and e["m"] == "gcp":
             since += 1
         elif (e["ev"] == "settle" and e.get("quiet") and e["m"] == "wread" and e["held"] == 0 and all(a == "done" for a in e["aux"])
               and "glyphs" in e and since >= 2):
             out.append(({"ev": "wait", "prompt": [[x[0], x[1]] for x in e["pglyphs"]], "buf": [[x[0], x[1]] for x in e["glyphs"]],
-                         "curidx": p_c04.cur_indices(e["glyphs"], e["cur"]), "ghost": False},
+                         "curidx": p_c04.cur_indices(e["glyphs"], e["cur"]), "ghost": False, "sametop": same and not first},
                         {k: v for k, v in e.items() if k not in ("cells", "stacks")}))
+            same, first = True, False
     while out and out[-1][0]["ev"] == "out":
         out.pop()
     return out
@@ -191,7 +240,7 @@ def check(rep, items, wd, confirm=True):
     if not rep.samples and per:
         c0 = next(iter(per))
         rep.samples = [l for l, _ in per[c0][:10]]
-    rejected = validate_cases(rep, os.path.join(wd, "tv"), "KeysIOTrace", "KeysIOTrace.cfg", per, label="KeysIOTrace", max_rejects=400)
+    rejected = validate_cases(rep, os.path.join(wd, "tv"), "KeysIOTrace", "KeysIOTrace.cfg", per, label="KeysIOTrace", max_rejects=60)
     rej_scr = validate_cases(rep, os.path.join(wd, "tvs"), "MC_TermTrace", "MC_TermTrace.cfg", scr, label="TermTrace(C20)", max_rejects=10) if scr else {}
     kfs = open_findings(rep.pid)
     drift = 0
@@ -227,6 +276,102 @@ def check(rep, items, wd, confirm=True):
     return rejected
 
 
+# ---- second family: real width changes (not in the model: the terminal model clips, xterm style, without reflow)
+RCANDS = [[{"v": "candidate-number-%02d" % i} for i in range(14)],
+          [{"v": "c%d" % i, "desc": "description %d" % i} for i in range(9)],
+          [{"v": "cand%d" % i} for i in range(40)]]
+RTEXTS = [b"ca", b"c", b"echo some words and then ca", b"a fairly long command line that wraps on a narrow terminal but not on a wide one c"]
+
+
+def resize_cases(rng, n):
+    S = {"k": "settle", "s": "screen"}
+    out = []
+    for i in range(n):
+        text = rng.choice(RTEXTS)
+        menu = rng.random() < 0.7
+        acts = [S, {"k": "type", "h": text.hex()}, S]
+        if menu:
+            acts += [{"k": "type", "h": rng.choice([b"\x1b=", b"\x1b?"]).hex()}, S]
+        tail = []
+        for _ in range(rng.randint(1, 3)):
+            # (keys that move in the completion grid are left out: where they lead depends on the grid's shape, hence on the width)
+            tail += [{"k": "type", "h": rng.choice([b"x", b"\x02", b"\x01", b"\x7f", b"y", b" "]).hex()}, S]
+        tail += [{"k": "type", "h": b"\r".hex()}, S]
+        w0 = rng.choice([80, 80, 60, 120])
+        widths = [rng.choice([w for w in (30, 40, 60, 80, 100, 120) if w != w0]) for _ in range(rng.randint(1, 2))]
+        wins = []
+        for w in widths:
+            wins += [{"k": "aux", "s": "winch", "w": w, "n": 24}, S]
+        base = {"inputrc": "", "w": w0, "h": 24, "prompt": rng.choice(["> ", "$ ", "prompt> "]), "free": True, "hold": False, "screen": True,
+                "wrap": "none", "comp": {"cands": rng.choice(RCANDS), "byword": True}, "hangms": 4000}
+        out.append((dict(base, id="c20-rs-%d" % i, sessions=[acts + wins + tail]), dict(base, id="c20-rs-%d-ref" % i, sessions=[acts + tail])))
+    return out
+
+
+def resize_screen_lines(cs, evs):
+    out = [({"ev": "reset", "w": cs["w"], "h": cs["h"]}, {"ev": "reset"})]
+    first = True
+    for e in evs:
+        if e["ev"] == "out":
+            out.append(({"ev": "out", "tok": e["tok"], "cells": e.get("cells") or [], "n": e.get("n", 0), "a": e.get("a", 0), "b": e.get("b", 0)}, e))
+        elif e["ev"] == "settle" and e.get("quiet") and e["m"] == "wread" and e["held"] == 0 and all(a == "done" for a in e["aux"]) and "glyphs" in e:
+            out.append(({"ev": "wait", "prompt": [[x[0], x[1]] for x in e["pglyphs"]], "buf": [[x[0], x[1]] for x in e["glyphs"]],
+                         "curidx": p_c04.cur_indices(e["glyphs"], e["cur"]), "ghost": False, "sametop": not first},
+                        {k: v for k, v in e.items() if k not in ("cells", "stacks")}))
+            first = False
+    while out and out[-1][0]["ev"] == "out":
+        out.pop()
+    return out
+
+
+def check_resize(rep, pairs, wd):
+    cases = [c for p in pairs for c in p]
+    by = run_harness("session", cases, os.path.join(wd, "rrun"), timeout=1800, max_restarts=10 ** 6)
+    scr = {}
+    for (cs, ref) in pairs:
+        evs, revs = by.get(cs["id"], []), by.get(ref["id"], [])
+        if not evs or not revs:
+            if "_skipped" in by:
+                continue
+            raise Infra("case %s produced no events" % cs["id"])
+        rep.evaluations += 1
+        rep.traces += 1
+
+        def outcome(es):
+            o = {"ret": None, "panic": None, "stuck": None}
+            for e in es:
+                if e["ev"] == "return":
+                    o["ret"] = ("".join(map(chr, e["line"])), e["err"])
+                elif e["ev"] == "panic":
+                    o["panic"] = (e.get("val"), e.get("site"))
+                elif e["ev"] in ("stuck", "hang", "auxstuck"):
+                    o["stuck"] = e.get("stacks", [])[:4]
+            return o
+        o, r = outcome(evs), outcome(revs)
+        if any(e["ev"] == "settle" and not e.get("quiet") for e in evs + revs) and not (o["panic"] or o["stuck"]):
+            rep.notes.append("resize case %s: a settle timed out, not judged" % cs["id"])
+            continue
+        rp = {"kind": "resize", "case": cs, "ref": ref}
+        if r["panic"] or r["ret"] is None:
+            raise Infra("undisturbed reference run of %s did not return" % ref["id"])
+        if o["panic"]:
+            rep.violation("resizing during the edit panics: %s at %s" % o["panic"], rp)
+        elif o["ret"] is None or o["stuck"]:
+            rep.violation("resizing during the edit: Readline never returned / a redisplay never finished (%s)" % "; ".join(o["stuck"] or []), rp)
+        elif o["ret"] != r["ret"]:
+            rep.violation("resizing during the edit changes the returned line: %r instead of %r" % (o["ret"], r["ret"]), rp)
+        else:
+            scr[cs["id"]] = resize_screen_lines(cs, evs)
+            rep.nontrivial.add(("resize", cs["w"], json.dumps(cs["sessions"][0])[:400]))
+    rej = validate_cases(rep, os.path.join(wd, "tvr"), "MC_TermTrace", "MC_TermTrace.cfg", scr, label="TermTrace(C20 resize)", max_rejects=10) if scr else {}
+    cmap = {p[0]["id"]: p for p in pairs}
+    for cid, (i, ln, raw, viol) in rej.items():
+        what = ("after a resize the screen is not the prompt and buffer (or the frame moved): buffer %r, screen %s, cursor at row %s col %s" %
+                ("".join(map(chr, raw.get("line", []))), raw.get("screen"), raw.get("crow"), raw.get("ccol"))) if ln["ev"] == "wait" else \
+               "output token %s contradicts the terminal state" % json.dumps(ln)[:200]
+        rep.violation(what, {"kind": "resize", "case": cmap[cid][0], "ref": cmap[cid][1]})
+
+
 def run(rep, tier, seed):
     rng = random.Random(seed * 2003 + 20)
     wd = workdir("c20")
@@ -248,11 +393,21 @@ def run(rep, tier, seed):
     log("C20: %d calm + %d overlapping schedules (of %d / %d enumerated)" % (ncalm, min(nopen, len(open_keys)), len(calm_keys), len(open_keys)))
     rep.extra["enumerated"] = {"calm": len(calm_keys), "overlapping": len(open_keys),
                                "overlapping_predicted_stuck": sum(1 for k in open_keys if opn[k] != {"good"})}
-    check(rep, items, wd)
-    rep.rule = ("schedules = sequences of environment decisions {type the next key, answer n held cursor queries (with the next key before/after "
+    b = Buffer(rep)
+    check(b, items, wd)
+    b.merge_into(rep)
+    confirmed(rep, b, lambda r, rps, w: check(r, [(rp["case"], tuple(rp["script"]), tuple(tuple(x) for x in rp["sched"]), rp.get("calm", True), None)
+                                                  for rp in rps], w), "c20")
+    b = Buffer(rep)
+    check_resize(b, resize_cases(rng, 120 if tier == "quick" else 2500), wd)
+    b.merge_into(rep)
+    confirmed(rep, b, lambda r, rps, w: check_resize(r, [(rp["case"], rp["ref"]) for rp in rps], w), "c20r")
+    rep.rule = ("(a) " "schedules = sequences of environment decisions {type the next key, answer n held cursor queries (with the next key before/after "
                 "them in the same write), start a Printf / SIGWINCH / Refresh in another goroutine}, taken whenever every goroutine of the "
                 "library is blocked, over scripts {E, KE, KKE, VKE, KVKE} (K key, V quoted-insert reading its argument, E Enter), enumerated "
-                "exhaustively by TLC from KeysIO.tla up to the bound; calm = at most one query outstanding; all / a seeded sample replayed")
+                "exhaustively by TLC from KeysIO.tla up to the bound; calm = at most one query outstanding; all / a seeded sample replayed; "
+                "(b) seeded width changes {30..120} while waiting for a key, with short / wrapping buffers, with and without a displayed "
+                "completion list, followed by more keys; compared with the same keys without the resize")
     rep.exhaustive = tier == "thorough"
     rep.explanation = ("TLC proves NeverStuck / RightLine on all calm schedules of the model and enumerates overlapping ones with verdicts; each "
                        "schedule is enforced on the real library (terminal answers withheld and released by the harness, goroutine dumps tell "
@@ -265,6 +420,9 @@ def run(rep, tier, seed):
 def replay(rep, rp):
     wd = workdir("c20-replay")
     cs = rp["case"]
+    if rp.get("kind") == "resize":
+        check_resize(rep, [(rp["case"], rp["ref"])], wd)
+        return
     items = [(cs, tuple(rp["script"]), tuple(tuple(x) for x in rp["sched"]), rp.get("calm", True), None)]
     check(rep, items, wd, confirm=False)
 
